@@ -729,12 +729,13 @@ class Kruskal(Family):
     its model; non-cubic tensors rejected."""
     name = "kruskal"
     theorems = ("C15_kruskal_sym", "C15_kruskal_passes_test", "C15_kruskal_issymmetric_iff", "C15_kruskal_rejects",
-                "C15_kruskal_keeps_value", "C15_kruskal_keeps_value_stored", "C15_kruskal_keeps_value_of_parallel",
-                "C15_kruskal_idem", "C15_kruskal_sym_array")
+                "C15_kruskal_keeps_value", "C15_kruskal_keeps_value_input", "C15_kruskal_keeps_value_stored",
+                "C15_kruskal_keeps_value_of_parallel", "C15_kruskal_fixes_sym", "C15_kruskal_idem",
+                "C15_kruskal_sym_array")
 
     def gen(self, rng, tier):
         out = []
-        n = 40 if tier == "quick" else 300
+        n = 60 if tier == "quick" else 1200
         for _ in range(n):
             N = rng.choice([2, 3, 3, 4])
             m = rng.randint(1, 3)
@@ -794,7 +795,7 @@ class Kruskal(Family):
         # symmetric ARRAY whose components are not symmetric one by one (sum over all mode orders of a1 x a2 x .. x aN):
         # ktensor.symmetrize averages the factor matrices, not the array, so these do not keep their value by design -
         # every other clause applies; whether the value changed is recorded as a tag
-        for _ in range(3 if tier == "quick" else 20):
+        for _ in range(3 if tier == "quick" else 40):
             N = rng.choice([2, 2, 3])
             m = rng.randint(2, 3)
             vecs = [gen.int_values(rng, m, -3, 3) for _ in range(N)]
@@ -826,7 +827,10 @@ class Kruskal(Family):
                 Kn2 = R.copy().normalize("all")
                 FR2 = _kfull(R2.weights, R2.factor_matrices)
                 FKn = _kfull(Kn.weights, Kn.factor_matrices)
-                mag = max(1e-300, float(np.max(np.abs(FK))), float(np.max(np.abs(FR))))
+                # scale of the rounding errors: the largest entry of sum_r |w_r| |a_r| x .. x |a_r| (the components may
+                # cancel in the array itself, e.g. 2 a^3 - a^3 - 3 (-a)^3 ... = 0 for one-row factors)
+                mag = max(1e-300, float(np.max(_kfull(np.abs(c["weights"]), [np.abs(f) for f in c["factors"]]))),
+                          float(np.max(_kfull(np.abs(R.weights), [np.abs(f) for f in R.factor_matrices]))))
                 return {"R": ktensor_j(R), "Kn": ktensor_j(Kn), "b": bool(b), "b_plain": bool(R.issymmetric()),
                         "R2": ktensor_j(R2), "Kn2": ktensor_j(Kn2),
                         "err_keep": float(np.max(np.abs(FR - FK))) / mag,
